@@ -116,7 +116,7 @@ func (c *Ctx) checkContentUnaltered() {
 			}
 			sent := literalFields(dataAlloc)
 			for _, f := range []string{"Head", "Content"} {
-				same := saved[f] != nil && sent[f] != nil && c.rootValue(saved[f]) == c.rootValue(sent[f])
+				same := saved[f] != nil && sent[f] != nil && (c.rootValue(saved[f]) == c.rootValue(sent[f]) || c.sameCarrierField(saved[f], sent[f]))
 				r.Check(same, "C02.4-content-unaltered", fmt.Sprintf("%s: broadcast %s is the value given to Save", fk(fn), f), c.pos(site), "", "the "+f+" delivered to recipients is not the value that was stored")
 			}
 			// From/author: both derive from the same request field / parameter family
